@@ -9,6 +9,7 @@ import (
 	"errors"
 	"fmt"
 	"os"
+	"path/filepath"
 	"sort"
 	"strconv"
 	"strings"
@@ -345,6 +346,23 @@ func (d *c06DB) reopen() {
 		panic(err)
 	}
 	d.open()
+}
+
+// copyFile copies the database file as it is on disk right now into a fresh
+// directory and returns that directory.
+func (d *c06DB) copyFile() string {
+	dir, err := os.MkdirTemp("", "stage-crash-")
+	if err != nil {
+		panic(err)
+	}
+	b, err := os.ReadFile(filepath.Join(d.dir, clientdb.DBFilename))
+	if err != nil {
+		panic(err)
+	}
+	if err := os.WriteFile(filepath.Join(dir, clientdb.DBFilename), b, 0o600); err != nil {
+		panic(err)
+	}
+	return dir
 }
 
 func (d *c06DB) close() {
@@ -988,6 +1006,7 @@ func (c *c06Case) step(op string) {
 	prev := c.prev
 	var (
 		res      string
+		crashDir string
 		stageExp *c06Snap // expected staged version (stage ops)
 		directA  map[int]c06Acct
 		directO  map[int]c06Ord
@@ -1020,7 +1039,7 @@ func (c *c06Case) step(op string) {
 			if rec.Extras != 0 || rec.Tier != 0 || rec.Min > 1 {
 				r.Count("submit/non-default-terms")
 			}
-		case "stage":
+		case "stage", "crashstage":
 			id, tx, fee := atoi(f[1]), atoi(f[2]), f[3] == "1"
 			os_, _ := parseKeyList(f[4])
 			oms, _ := parseOModLists(f[5])
@@ -1056,6 +1075,24 @@ func (c *c06Case) step(op string) {
 					l = append(l, d.realAMod(m))
 				}
 				amods = append(amods, l)
+			}
+			if f[0] == "crashstage" {
+				// the process dies inside the transaction, after the
+				// elements before `pos` were written: what is on disk at
+				// that moment is copied aside (a crash executes no
+				// rollback code), then the call is aborted by a panic
+				pos := atoi(f[9])
+				die := func() {
+					crashDir = d.copyFile()
+					panic("simulated crash inside StorePendingBatch")
+				}
+				switch {
+				case pos < len(omods):
+					omods[pos] = append(omods[pos], func(*order.Kit) { die() })
+				case pos-len(omods) < len(amods):
+					i := pos - len(omods)
+					amods[i] = append(amods[i], func(*account.Account) { die() })
+				}
 			}
 			err := d.db.StorePendingBatch(d.batch(id, tx, fee, mt), nonces, omods, accts, amods)
 			res = c06ErrName(err)
@@ -1180,7 +1217,33 @@ func (c *c06Case) step(op string) {
 			res = "bad-op"
 		}
 	}()
-	r.Emit("C06 "+op, res)
+	if f[0] == "crashstage" && crashDir == "" {
+		// the call ended (error / earlier panic) before the crash point
+		// was reached: it was an ordinary staging call
+		f = f[:9]
+		f[0] = "stage"
+		op = strings.Join(f, " ")
+	}
+	if f[0] == "crashstage" {
+		// model: a crash inside a transaction leaves the pre-transaction
+		// state (bbolt, trusted - and exercised here)
+		res = "crash"
+		r.Emit("C06 crash", res)
+		{
+			cd := &c06DB{w: d.w, dir: crashDir}
+			cd.open()
+			cob := cd.observe()
+			cd.close()
+			r.Emit("C06 obs", cob.str())
+			r.Count("crash/at-element")
+			if prev != nil && cob.str() != prev.str() {
+				c.violate("database file as left by a crash inside StorePendingBatch differs from the "+
+					"pre-call state:\n before %s\n crash  %s", prev.str(), cob.str())
+			}
+		}
+	} else {
+		r.Emit("C06 "+op, res)
+	}
 	ob := d.observe()
 	r.Emit("C06 obs", ob.str())
 	c.prev = ob
@@ -1213,6 +1276,8 @@ func (c *c06Case) step(op string) {
 		return got == want
 	}
 	switch f[0] {
+	case "crashstage":
+		r.Count("crashstage/" + res)
 	case "stage":
 		kind := "ok"
 		if !ok {
@@ -1658,8 +1723,23 @@ func (g *c06Gen) history() []string {
 		switch x := rng.Intn(100); {
 		case x < 28:
 			ops = append(ops, g.stage(false))
-		case x < 40:
+		case x < 38:
 			ops = append(ops, g.stage(true))
+		case x < 40:
+			st := g.stage(false)
+			ff := strings.Fields(st)
+			no, na := 0, 0
+			if ff[4] != "_" {
+				no = len(strings.Split(ff[4], ","))
+			}
+			if ff[6] != "_" {
+				na = len(strings.Split(ff[6], ","))
+			}
+			if no+na == 0 {
+				ops = append(ops, st)
+			} else {
+				ops = append(ops, fmt.Sprintf("crash%s %d", st, rng.Intn(no+na)))
+			}
 		case x < 52:
 			ops = append(ops, "complete")
 		case x < 59:
